@@ -384,7 +384,22 @@ pub fn add_venv(rng: &mut Rng, spec: &mut WsSpec, names: &[String]) {
     if rng.chance(500) {
         let pname = rng.pick(names).clone();
         let rel = "plugsrc/myplug/plugin.py".to_string();
-        spec.files.push(PyFile { rel: rel.clone(), items: vec![Item::Fixture(Fx { func: pname, ..Default::default() }), Item::Fixture(Fx { func: "plug_only".into(), ..Default::default() })] });
+        let mut plugin_items = vec![Item::Fixture(Fx { func: pname, ..Default::default() }), Item::Fixture(Fx { func: "plug_only".into(), ..Default::default() })];
+        if rng.chance(400) {
+            // the plugin star-imports a helper module (which thereby provides plugin fixtures too); a conftest
+            // somewhere below the root imports the same module: whoever the import scan visits first, the
+            // module's fixtures stay visible to the whole workspace
+            let shared = "plugsrc/myplug/shared.py".to_string();
+            spec.files.push(PyFile { rel: shared.clone(), items: vec![Item::Fixture(Fx { func: "shared_only".into(), ..Default::default() }), Item::Fixture(Fx { func: rng.pick(names).clone(), ..Default::default() })] });
+            spec.plugin_files.push(shared.clone());
+            plugin_items.insert(0, Item::Star { module: ".shared".into(), target: Some(shared.clone()) });
+            let confs: Vec<usize> = spec.files.iter().enumerate().filter(|(_, f)| f.rel.ends_with("/conftest.py") && !f.rel.starts_with('.') && !f.rel.starts_with("plugsrc")).map(|(i, _)| i).collect();
+            if !confs.is_empty() && rng.chance(700) {
+                let i = *rng.pick(&confs);
+                spec.files[i].items.insert(0, Item::Star { module: "myplug.shared".into(), target: Some(shared) });
+            }
+        }
+        spec.files.push(PyFile { rel: rel.clone(), items: plugin_items });
         spec.files.push(PyFile { rel: "plugsrc/myplug/__init__.py".into(), items: vec![] });
         spec.plugin_files.push(rel);
         spec.extra.push((format!("{}/myplug-0.1.0.dist-info/direct_url.json", sp), "{\"url\": \"file://${ROOT}/plugsrc\", \"dir_info\": {\"editable\": true}}".to_string()));
@@ -447,6 +462,9 @@ pub fn simple_test(name: &str, params: &[&str]) -> Item {
 /// Three mutually importing modules (ma -> mb -> mc -> ma) entered at two different points by two
 /// sibling conftests: the shape on which a memoised, `visited`-truncated import walk goes wrong.
 pub fn ring_ws(rng: &mut Rng) -> WsSpec {
+    if rng.chance(400) {
+        return conftest_ring_ws(rng);
+    }
     let mods = ["ma", "mb", "mc"];
     let fx = ["fa", "fb", "fc"];
     let mut files = vec![];
@@ -461,6 +479,29 @@ pub fn ring_ws(rng: &mut Rng) -> WsSpec {
     for (d, e) in entries {
         files.push(PyFile { rel: format!("{}/conftest.py", d), items: vec![Item::Star { module: mods[e].to_string(), target: Some(format!("{}.py", mods[e])) }] });
         files.push(PyFile { rel: format!("{}/test_{}.py", d, d), items: vec![Item::Test(Tst { name: "test_ring".into(), params: fx.iter().map(|s| s.to_string()).collect(), ..Default::default() })] });
+    }
+    rng.shuffle(&mut files);
+    WsSpec { files, ..Default::default() }
+}
+
+/// An import cycle that passes through a conftest: p/conftest.py star-imports mb (and md), mb star-imports p.conftest;
+/// q/conftest.py enters the cycle at mb.  A walk rooted at p/conftest.py sees mb cut short by `visited`; a walk
+/// rooted at q/conftest.py must still see everything (fb, fd, fp).
+pub fn conftest_ring_ws(rng: &mut Rng) -> WsSpec {
+    let star = |m: &str, t: &str| Item::Star { module: m.to_string(), target: Some(t.to_string()) };
+    let fx = |n: &str| Item::Fixture(Fx { func: n.to_string(), ..Default::default() });
+    let mut pc = vec![star("mb", "mb.py"), star("md", "md.py"), fx("fp")];
+    if rng.chance(500) {
+        pc.swap(0, 1);
+    }
+    let mut files = vec![
+        PyFile { rel: "mb.py".into(), items: vec![star("p.conftest", "p/conftest.py"), fx("fb")] },
+        PyFile { rel: "md.py".into(), items: vec![fx("fd")] },
+        PyFile { rel: "p/conftest.py".into(), items: pc },
+        PyFile { rel: "q/conftest.py".into(), items: vec![star("mb", "mb.py")] },
+    ];
+    for d in ["p", "q"] {
+        files.push(PyFile { rel: format!("{}/test_{}.py", d, d), items: vec![Item::Test(Tst { name: "test_ring".into(), params: vec!["fb".into(), "fd".into(), "fp".into()], ..Default::default() })] });
     }
     rng.shuffle(&mut files);
     WsSpec { files, ..Default::default() }
